@@ -70,6 +70,13 @@ def axis_obligations(fr, T, Fc, asc, df, dt, fch1):
     else:
         for i in range(T + 1):
             ob.append((f'ts_ext[{i}] (shifted origin)', lift(ext2[i]) != tau + i * dtv))
+    # the derived end time follows the frame's current start time (cadences and users reassign it)
+    ts_new = z3.Real('t_start_new')
+    t_saved = fr.t_start
+    fr.t_start = Sym(ts_new)
+    ob.append(('t_stop (start time reassigned)', lift(fr.t_stop) != ts_new + T * dtv))
+    ob.append(('obs_length (start time reassigned)', lift(fr.obs_length) != T * dtv))
+    fr.t_start = t_saved
     a, b = z3.Real('ia'), z3.Real('ib')
     ob.append(('get_drift_rate', lift(fr.get_drift_rate(Sym(a), Sym(b))) != (b - a) * dfv / (T * dtv)))
     ob.append(('df', lift(fr.df) != dfv))
@@ -380,6 +387,9 @@ def replay_axes(p):
         msgs.append("t_stop")
     if not np.isclose(fr.get_drift_rate(1, 3), 2 * df / (T * dt), rtol=tol):
         msgs.append("get_drift_rate")
+    fr.t_start = fr.t_start + 1234.5
+    if not np.isclose(fr.t_stop, fr.t_start + T * dt, rtol=1e-12) or not np.isclose(fr.obs_length, T * dt, rtol=tol):
+        msgs.append(f"after reassigning t_start to {fr.t_start!r}: t_stop={fr.t_stop!r}, expected {fr.t_start + T * dt!r}")
     fr.ts = fr.ts + 1000.0
     if len(fr.ts_ext) != T + 1 or not np.allclose(fr.ts_ext, 1000.0 + np.arange(T + 1) * dt, rtol=tol, atol=tol * dt):
         msgs.append(f"ts_ext on a time axis starting at 1000.0: {fr.ts_ext!r}")
